@@ -36,7 +36,12 @@ type c15Case struct {
 	// Twin (with InList, not for lists): the item is written twice on the same line, so a violated declaration gives two
 	// reports with the same text on one line, at different columns; the position of the SECOND is checked
 	Twin bool `json:"twin,omitempty"`
+	// Exotic > 0: the blanks inside the brackets are a Unicode blank outside ASCII (exoticBlanks[Exotic-1]). Nothing says that
+	// such a declaration is well formed: it may be refused; if it is accepted the bounds hold as written
+	Exotic int `json:"exotic,omitempty"`
 }
+
+var exoticBlanks = []string{"\u00a0", "\u0085", "\u2009", "\u2028", "\u3000", "\u1680", "\u202f", "\v", "\f"}
 
 // badElement is a well-formed number that the item type cannot represent: it is written, so it is counted.
 func badElement(kind string) string {
@@ -69,6 +74,12 @@ func init() { registerReplay("c15", checkC15) }
 
 func (c c15Case) decl() string {
 	sp := func(bit int) string {
+		if c.Exotic > 0 {
+			if c.Blanks>>uint(bit)&1 == 1 || (c.Blanks&0xF == 0 && bit == 0) {
+				return exoticBlanks[(c.Exotic-1)%len(exoticBlanks)]
+			}
+			return ""
+		}
 		if c.Blanks>>uint(bit)&1 == 1 {
 			if c.Blanks>>6&1 == 1 {
 				// a line break inside the brackets, with a comment (holding digits, dots and brackets) before it
@@ -197,6 +208,13 @@ func checkC15(c c15Case) (ci caseInfo, err error) {
 	line, col := lineCol(text, off)
 	msgs, errs, _ := sml.Parse(text)
 	ok := within(c.Count, lo, hi)
+	if c.Exotic > 0 {
+		if len(errs) > 0 && len(msgs) == 0 {
+			ci.label("exotic-blank-in-declaration:refused")
+			return ci, nil
+		}
+		ci.label("exotic-blank-in-declaration:accepted")
+	}
 	if c.After {
 		// the earlier message is in error whatever this one does: only the position of this one's report is checked
 		if len(msgs) != 0 || !hasErrorAt(errs, 3, 6) {
@@ -269,6 +287,13 @@ func checkC15Variable(c c15Case, lo, hi *big.Int, decl string, ci caseInfo) (cas
 	}
 	ci.Nontrivial = true
 	msgs, errs, _ := sml.Parse(text)
+	if c.Exotic > 0 {
+		if len(errs) > 0 && len(msgs) == 0 {
+			ci.label("exotic-blank-in-declaration:refused")
+			return ci, nil
+		}
+		ci.label("exotic-blank-in-declaration:accepted")
+	}
 	if hi != nil && lo.Cmp(hi) > 0 && !lo.IsInt64() {
 		// the lower bound is beyond any representable length (it overflows 63 bits): no string can satisfy either reading
 		ci.label("either:lower-bound-overflows")
@@ -525,7 +550,11 @@ func TestC15(t *testing.T) {
 		if c.AsVar {
 			c.Kind = model.A
 		}
-		if !c.AsVar && rapid.IntRange(0, 5).Draw(t, "after") == 5 {
+		if rapid.IntRange(0, 11).Draw(t, "exoticBlank") == 11 {
+			c.Exotic = rapid.IntRange(1, len(exoticBlanks)).Draw(t, "exoticWhich")
+			c.Blanks &= 0xF
+		}
+		if !c.AsVar && c.Exotic == 0 && rapid.IntRange(0, 5).Draw(t, "after") == 5 {
 			c.After = true
 		}
 		if rapid.IntRange(0, 4).Draw(t, "sameLine") == 4 {
